@@ -83,7 +83,7 @@ Theorem C05_discriminates_data :
   mask_of (d_arr x) = mask_of (d_arr y) /\
   d_units x = d_units y /\ d_cal x = d_cal y /\
   (ifv = false -> d_fill x = d_fill y) /\
-  (idt = false -> a_tag (d_arr x) = a_tag (d_arr y)) /\
+  (idt = false -> a_tag (d_arr x) = a_tag (d_arr y) \/ (a_str (d_arr x) = true /\ a_str (d_arr y) = true)) /\
   (icomp = false -> d_ctype x = d_ctype y) /\
   forallb2 (elem_eq (if a_str (d_arr x) then (if a_str (d_arr y) then 1 else 2)
                      else (if a_str (d_arr y) then 2 else 0)) r a)
